@@ -9,6 +9,7 @@ import GraphiqModel.Proofs.StateToGraphGauge
 import GraphiqModel.Proofs.StateToGraphAdjugate
 import GraphiqModel.Proofs.StateToGraphDensity
 import GraphiqModel.Proofs.StateToGraphNegativity
+import GraphiqModel.Proofs.StateToGraphHilbert
 import GraphiqModel.Proofs.GraphStateGroup
 namespace Graphiq.C08
 open Graphiq Graphiq.PRow Graphiq.Tab Graphiq.STab
@@ -386,6 +387,26 @@ example : (∀ i j, i < 3 → j < 3 → tri i j = tri j i) ∧ (∀ i, i < 3 →
     (have h1 : i = 0 ∨ i = 1 ∨ i = 2 := by omega
      have h2 : j = 0 ∨ j = 1 ∨ j = 2 := by omega
      rcases h1 with rfl | rfl | rfl <;> rcases h2 with rfl | rfl | rfl <;> decide)
+
+/-! ### Hilbert-space reading (matrices on `2ⁿ` dimensions; the verified semantics of the C07 development)
+
+  `Hilbert.rho n T = ∏_i (1 + P_i)/2` is the density matrix of a stabilizer tableau, `Hilbert.circMat n c` the unitary of a gate list
+  (Kronecker products of the graphiq gate matrices: `C07.gate_matrices_are_kronecker_products`), `Hilbert.rho n (STab.zero n)` is
+  `|0…0⟩⟨0…0|` (`Hilbert.rho_zero`).  `graphStateMat n A := U |0…0⟩⟨0…0| U†` with `U` = `H` on every qubit, then `CZ` on every edge. -/
+
+/-- **graph → stabilizer produces the graph state, as a matrix** (every n, every simple graph): the density matrix of the tableau
+    `[I | A]` is `CZ_E H^{⊗n} |0…0⟩⟨0…0| H^{⊗n} CZ_E` -/
+theorem graph_to_stabilizer_is_graph_state (n : Nat) (adj : Adj) (hsym : ∀ i j, i < n → j < n → adj i j = adj j i)
+    (hirr : ∀ i, i < n → adj i i = false) : Hilbert.rho n (graphSTab n adj) = graphStateMat n adj :=
+  rho_graphSTab n adj hsym hirr
+
+/-- **`state_to_graph`, completeness + soundness on Hilbert space** (every n ≥ 1, every stabilizer state): the modelled conversion
+    returns `(G, gates)`, the gates are in range, and `U_gates ρ U_gates† = |G⟩⟨G|` — the returned single-qubit Clifford gates map the
+    input state exactly (not only up to a global phase: these are density matrices) onto that graph's state -/
+theorem state_to_graph_correct_hilbert (t : STab) (hn : 0 < t.n) (hstate : IsStabilizerState t) :
+    ∃ adj gates, S2G.stateToGraph t = .ok (adj, gates) ∧ (∀ g, g ∈ gates → g.WF t.n) ∧
+      Hilbert.circMat t.n gates * Hilbert.rho t.n t * (Hilbert.circMat t.n gates).conjTranspose = graphStateMat t.n adj.f :=
+  stateToGraph_hilbert t hn hstate.1 hstate.2
 
 /-! ### density matrix → graph: what is exact about the negativity-based edge detection
 
